@@ -91,47 +91,116 @@ def mean_motion(sma, body="Earth"):
 # ------------------------------------------------------------------ library objects
 
 
-def epoch_date(k0):
+BASE_DAYS = [(2020, 1, 1), (2019, 12, 31), (2016, 12, 31), (2020, 2, 29), (2015, 6, 30), (2021, 1, 1)]
+# not TDB: relabelling to TDB moves the instant by a fraction of a microsecond and Date + timedelta is not
+# uniform there (periodic TDB-TT term) - time-scale arithmetic is C03's subject, here dates must be exact
+SCALES = ["UTC", "TAI", "TT", "GPS", "UT1"]
+
+
+def epoch_date(k0, base=0):
+    """The epoch as a UTC date; every other date of a case is this one + whole microseconds."""
     from beyond.dates import Date, timedelta
 
-    return Date(2020, 1, 1) + timedelta(microseconds=int(k0))
+    return Date(*BASE_DAYS[base % len(BASE_DAYS)]) + timedelta(microseconds=int(k0))
 
 
-def at(epoch, k):
+def at(epoch, k, label="UTC"):
+    """The instant epoch + k microseconds, carrying the given time-scale label."""
     from beyond.dates import timedelta
 
-    return epoch + timedelta(microseconds=int(k))
+    date = epoch + timedelta(microseconds=int(k))
+    return date if label == "UTC" else date.change_scale(label)
 
 
-def make_mans(epoch, mans):
+def as_container(values, how):
+    """The same numbers in another container / dtype ('int*' only for integer-valued numbers)."""
+    v = [float(x) for x in values]
+    if how in ("int-list", "int64") and all(x == int(x) for x in v):
+        return [int(x) for x in v] if how == "int-list" else np.array([int(x) for x in v], np.int64)
+    return {"list": v, "tuple": tuple(v), "f64": np.array(v), "view": np.array([v, v]).T[:, 0]}.get(how, v)
+
+
+def make_mans(epoch, mans, sp=None):
     from beyond.dates import timedelta
     from beyond.orbits.man import ContinuousMan, ImpulsiveMan
 
+    sp = sp or {}
+    labels = sp.get("lab_man") or ["UTC"]
+    how = sp.get("dv_as", "list")
     out = []
-    for m in mans:
+    keep = []
+    for j, m in enumerate(mans):
+        lab = labels[j % len(labels)]
         if m["kind"] == "imp":
-            out.append(ImpulsiveMan(at(epoch, m["t"]), list(m["dv"])))
+            arg = as_container(m["dv"], how)
+            out.append(ImpulsiveMan(at(epoch, m["t"], lab), arg))
         else:
             dur = timedelta(microseconds=int(m["dur"]))
             pos = m.get("pos", "start")
             ref = {"start": m["t"], "stop": m["t"] + m["dur"], "median": m["t"] + m["dur"] // 2}[pos]
-            kw = {"dv": list(m["dv"])} if "dv" in m else {"accel": list(m["accel"])}
-            out.append(ContinuousMan(at(epoch, ref), dur, date_pos=pos, **kw))
+            arg = as_container(m["dv"] if "dv" in m else m["accel"], how)
+            kw = {"dv": arg} if "dv" in m else {"accel": arg}
+            out.append(ContinuousMan(at(epoch, ref, lab), dur, date_pos=pos, **kw))
+        keep.append(arg)
+    if sp.get("scribble_args"):
+        # the caller re-uses its arrays for something else once the maneuvers are built
+        for arg in keep:
+            if isinstance(arg, np.ndarray):
+                arg[...] = 9.0e9
     return out
 
 
-def make_orbit(case, ori=None, x0=None, mans=None):
+def polar_forms(x, form):
+    """Spherical / cylindrical coordinates of a cartesian state, from their definitions."""
+    px, py, pz, vx, vy, vz = [float(c) for c in x]
+    rho2 = px * px + py * py
+    rho = math.sqrt(rho2)
+    if form == "cylindrical":
+        return [rho, math.atan2(py, px), pz, (px * vx + py * vy) / rho, (px * vy - py * vx) / rho2, vz]
+    r = math.sqrt(rho2 + pz * pz)
+    return [r, math.atan2(py, px), math.asin(pz / r), (px * vx + py * vy + pz * vz) / r,
+            (px * vy - py * vx) / rho2, (vz * rho2 - pz * (px * vx + py * vy)) / (r * r * rho)]
+
+
+def make_orbit(case, ori=None, x0=None, mans=None, prop=None):
     from beyond.frames.frames import HillFrame
     from beyond.orbits import Orbit
     from beyond.propagators.cw import ClohessyWiltshire
 
-    frame = HillFrame(orientation=ori or case["ori"], center=center_of(body_of(case)))
-    prop = ClohessyWiltshire(case["sma"], frame=frame)
-    epoch = epoch_date(case["k0"])
-    orb = Orbit(list(case["x0"] if x0 is None else x0), epoch, "cartesian", frame, prop)
+    sp = case.get("sp") or {}
+    epoch = epoch_date(case["k0"], sp.get("base", 0))
+    if prop is None:
+        frame = HillFrame(orientation=ori or case["ori"], center=center_of(body_of(case)))
+        sma = int(case["sma"]) if sp.get("sma_int") and case["sma"] == int(case["sma"]) else case["sma"]
+        # "Hill" names the Hill frame created last
+        prop = ClohessyWiltshire(sma, frame="Hill" if sp.get("frame_name") else frame)
+    frame = prop.frame
+    coords = list(case["x0"] if x0 is None else x0)
+    form = sp.get("form", "cartesian")
+    if form != "cartesian":
+        rho = math.hypot(coords[0], coords[1])
+        if rho < 0.1 * math.sqrt(rho * rho + coords[2] ** 2):
+            form = "cartesian"         # too close to the polar axis of these forms
+        else:
+            coords = polar_forms(coords, form)
+    arg = as_container(coords, sp.get("x0_as", "list"))
+    orb = Orbit(arg, at(epoch, 0, sp.get("lab_epoch", "UTC")), form, frame, prop)
+    if sp.get("scribble_args") and isinstance(arg, np.ndarray):
+        arg[...] = -7.0e9
     ml = case.get("mans", []) if mans is None else mans
     if ml:
-        orb.maneuvers = make_mans(epoch, ml)
+        orb.maneuvers = make_mans(epoch, ml, sp)
+    how = sp.get("clone", "none")
+    if how == "copy":
+        orb = orb.copy()
+    elif how == "pickle":
+        import pickle
+
+        orb = pickle.loads(pickle.dumps(orb))
+    elif how in ("copy.copy", "deepcopy"):
+        import copy
+
+        orb = copy.copy(orb) if how == "copy.copy" else copy.deepcopy(orb)
     return orb, epoch
 
 
@@ -148,7 +217,7 @@ def oracle_events(mans):
 
 
 def state_of(res):
-    v = np.asarray(res.base, float)
+    v = np.array(res.view(np.ndarray), dtype=float)      # a copy: the caller may overwrite `res` later
     if v.shape != (6,) or not np.all(np.isfinite(v)):
         raise Violation("non-finite", f"result {v.tolist()}")
     return v
@@ -388,6 +457,109 @@ def maneuver_inside_thrust_arc(facet, case, kind, msg, data):
 FINDINGS = {"C16/maneuver-inside-thrust-arc": maneuver_inside_thrust_arc}
 
 
+# ------------------------------------------------------------------ spellings
+
+
+@st.composite
+def spell_case(draw, shard, tier):
+    """The cases of hill_solution under other spellings of the same physical input: time-scale labels of
+    the epoch / maneuver / propagation dates, relative state and delta-v as tuple, arrays, integers (the
+    caller's arrays being re-used afterwards), the orbit held in spherical or cylindrical form, cloned by
+    copy(), copy.copy, copy.deepcopy or pickle, the frame given by its name, an integer semi major-axis, other calendar days, spans
+    and burns of several days, results overwritten in place by the caller and asked again."""
+    d = D(draw)
+    sma, ori, k0, body = draw_target(d)
+    long = d.int(0, 3) == 0
+    integers = d.int(0, 3) == 0
+    if d.int(0, 2) == 0:
+        sma = float(int(sma))
+    mans = draw_mans(d, sma, nmax=3, body=body)
+    if long:
+        # burns of one to three days, spans of up to five days
+        day = 86_400_000_000
+        start = max([0] + [m["t"] + m.get("dur", 0) for m in mans])
+        m = dict(kind="cont", t=start + int(d.u(0, 0.2) * day), dur=2 * int(d.u(0.5, 1.5) * day), pos=d.pick("start", "stop", "median"))
+        m["dv" if d.coin() else "accel"] = [d.signed(1e-7, 1e-5) for _ in range(3)]
+        if "dv" in m:
+            m["dv"] = [v * 1e5 for v in m["dv"]]
+        mans.append(m)
+    x0 = draw_state(d)
+    if integers:
+        x0 = [float(round(v)) or 1.0 for v in x0]
+        for m in mans:
+            key = "dv" if "dv" in m else "accel"
+            if key == "dv":
+                m[key] = [float(round(v)) or 1.0 for v in m[key]]
+    qs = draw_queries(d, sma, mans, d.int(3, 6), body)
+    if long:
+        qs += [int(d.u(-5.0, 5.0) * 86_400_000_000) for _ in range(2)]
+    ints = ("int-list", "int64") if integers else ()
+    sp = dict(base=d.int(0, 5), lab_epoch=d.pick(*SCALES), lab_man=[d.pick(*SCALES) for _ in range(3)],
+              lab_q=[d.pick(*SCALES) for _ in range(4)],
+              x0_as=d.pick("list", "tuple", "f64", "view", *ints), dv_as=d.pick("list", "tuple", "f64", *ints),
+              scribble_args=d.coin(), form=d.pick("cartesian", "cartesian", "spherical", "cylindrical"),
+              clone=d.pick("none", "none", "copy", "pickle", "copy.copy", "deepcopy"), frame_name=d.int(0, 3) == 0, sma_int=d.coin(),
+              scribble=d.coin())
+    return dict(sma=sma, ori=ori, k0=k0, x0=x0, mans=mans, qs=qs, body=body, api=d.pick("date", "date", "delta", "iter"),
+                sp=sp, long=long)
+
+
+def check_spellings(case):
+    from beyond.dates import timedelta
+
+    sp = case["sp"]
+    orb, epoch = make_orbit(case)
+    n = mean_motion(case["sma"], body_of(case))
+    events = oracle_events(case["mans"])
+    x0 = np.array(case["x0"], float)
+    qs = list(case["qs"])
+    labs = sp["lab_q"]
+    dates = [at(epoch, k, labs[j % len(labs)]) for j, k in enumerate(qs)]
+    api = case["api"]
+    if api == "iter":
+        got = list(orb.iter(dates=dates))
+    elif api == "delta":
+        got = [orb.propagate(timedelta(microseconds=int(k))) for k in qs]
+    else:
+        got = [orb.propagate(dt) for dt in dates]
+    if len(got) != len(qs):
+        raise Violation("iter-count", f"{len(got)} results for {len(qs)} dates")
+    worst = 0.0
+    last = max([0] + [m["t"] + m.get("dur", 0) for m in case["mans"]])
+    loose = 1.0 if sp["form"] == "cartesian" else 8.0
+    for k, res, date in zip(qs, got, dates):
+        if offset_us(res, epoch) != k:
+            raise Violation("result-date", f"asked epoch{k:+d} us ({date}), result dated epoch{offset_us(res, epoch):+d} us")
+        if res.frame.orientation != case["ori"]:
+            raise Violation("result-frame", f"result in {res.frame.name}")
+        t = k * US
+        want, scale = hill.piecewise(n, x0, events, t, case["ori"])
+        span = max(abs(t), min(max(t, 0.0), last * US))
+        nseg = 1 + sum(1 for e in events if t >= e.get("t", e.get("t0")))
+        tol = tol_state(n, scale, n * span, nseg) * loose
+        v = state_of(res.copy(form="cartesian") if res.form.name != "cartesian" else res)
+        r = float(np.max(np.abs(v - want) / tol))
+        worst = max(worst, r)
+        if r > 1:
+            j = int(np.argmax(np.abs(v - want) / tol))
+            raise Violation(
+                "hill-solution-spelling",
+                f"{case['ori']} about {body_of(case)}, a={case['sma']!r} m, t={t!r} s, {len(case['mans'])} maneuvers; spelled "
+                f"{ {k_: v_ for k_, v_ in sp.items() if v_ not in (False, 'none', 'cartesian', 'list')} }: component {j} is "
+                f"{float(v[j])!r}, Hill's equations give {float(want[j])!r} ({r:.3g} x tol)", component=j, ratio=r)
+        if sp["scribble"] and api != "delta":
+            # the caller overwrites the result in place, then asks again
+            res[:] = 4321.0
+            again = state_of(orb.propagate(date))
+            if not np.array_equal(again, v) and res.form.name == "cartesian":
+                raise Violation("result-aliased", f"t={t!r} s: after the caller overwrote the result in place the same "
+                                f"request gives {again.tolist()} instead of {v.tolist()}")
+    cls = [f"epoch:{sp['lab_epoch']}", "x0:" + sp["x0_as"], "dv:" + sp["dv_as"], "form:" + sp["form"], "clone:" + sp["clone"],
+           "long" if case["long"] else "short"] + (["frame-by-name"] if sp["frame_name"] else []) + \
+          (["scribble"] if sp["scribble"] else [])
+    return dict(nt=True, cls=classes(case, cls), ratio=worst)
+
+
 # ------------------------------------------------------------------ multi_target
 
 
@@ -407,6 +579,9 @@ def multi_case(draw, shard, tier):
     if d.int(0, 4) > 0 and targets[0]["body"] == targets[1]["body"]:
         targets[1]["body"] = {"Earth": "Mars", "Mars": "Earth", "Moon": "Earth", "Custom": "Moon"}[targets[0]["body"]]
         targets[1]["sma"] = shared
+    if d.int(0, 2) == 0:
+        # one more chaser of target 0, attached to the SAME propagator object (Orbit.propagate re-attaches it)
+        targets.append(dict(targets[0], x0=draw_state(d), share=0))
     ops = []
     for _ in range(d.int(3, 8)):
         j = d.int(0, len(targets) - 1)
@@ -425,7 +600,8 @@ def check_multi(case):
         if j not in built:
             tg = case["targets"][j]
             sub = dict(sma=tg["sma"], ori=tg["ori"], body=tg["body"], k0=case["k0"], x0=tg["x0"])
-            orb, epoch = make_orbit(sub, mans=[])
+            shared = get(tg["share"])[0].propagator if "share" in tg else None
+            orb, epoch = make_orbit(sub, mans=[], prop=shared)
             built[j] = (orb, epoch, CWHelper(orb.propagator))
         return built[j]
 
@@ -474,6 +650,7 @@ def check_multi(case):
     smas = {t["sma"] for t in case["targets"]}
     clash = len(bodies) > len(smas)
     return dict(nt=clash, cls=["same-sma-other-body" if clash else "distinct", f"targets:{len(case['targets'])}",
+                               *(["shared-propagator"] if any("share" in t for t in case["targets"]) else []),
                                "lazy" if case["lazy"] else "eager"], ratio=worst)
 
 
@@ -858,6 +1035,9 @@ FACETS = [
     Facet("overlap", overlap_case, check_overlap, setup=_setup,
           rule="some query falls inside a thrust arc after a later-listed maneuver has started",
           quick=(6, 300), thorough=(12, 3000)),
+    Facet("spellings", spell_case, check_spellings, setup=_setup,
+          rule="every case: hill_solution input under another spelling (labels, containers, form, clone, days, ...)",
+          quick=(8, 350), thorough=(16, 3000)),
     Facet("multi_target", multi_case, check_multi, setup=_setup,
           rule="two live propagators have exactly the same semi major-axis about different bodies",
           quick=(6, 300), thorough=(12, 3000)),
